@@ -121,7 +121,7 @@ def run(tier, seed):
     rnd = random.Random(seed + 16)
     evals, viol, shapes = 0, [], set()
     from architecture_simulator.isa.riscv import rv32i_instructions as I
-    for it in range(320 if tier == "quick" else 9000):
+    for it in range(320 if tier == "quick" else 2500):
         dense = it % 2 == 1
         if dense:
             # memory-dense programs over a handful of blocks with small associative caches: hits on blocks that are not
@@ -148,7 +148,7 @@ def run(tier, seed):
             shapes.add((mode, cached, d.cache_type if d else None, min(n, 12)))
         if bad and len(viol) < 5:
             viol.append({"key": "C16:riscv:" + bad[:70], "what": bad, "program": [str(p) for p in prog], "mode": mode, "cached": cached, "seed": seed, "index": it})
-    for it in range(500 if tier == "quick" else 20000):
+    for it in range(500 if tier == "quick" else 6000):
         text, n_ins = c06.gen(rnd)
         hit, _ = c06.classify(text, n_ins)
 
